@@ -63,9 +63,13 @@ theorem rk_step (E : Env S) (hpos : PosW E) (n : Nat) (ihR : RK E n) (ihA : AK E
     rw [hem] at k6
     rw [e1] at t1 t2 ce1 k1 k2 k3 he4_1
     refine ⟨⟨ce1, hw.o.of_eq t1 t2, k1, k2⟩, he4_1, keep4_of_other x s s1 nt k3 hnl,
-      fun S' hS hl => (hfo S' hS hl).of_same (k3 S' hS) (Ext.of_eq t1), fun p' fr' hy => ?_, fun hr => (by cases hr), fun ci q hq => ?_⟩
+      fun S' hS hl => (hfo S' hS hl).of_same (k3 S' hS) (Ext.of_eq t1), fun p' fr' hy => ?_, fun hr => (by cases hr), fun ci q hq => ?_,
+      fun hr => (by cases hr), fun _ hr => (by cases hr)⟩
     · cases hy
-      exact k6
+      refine ⟨k6, hk.ns (hk.pe ?_)⟩
+      intro hnil
+      rw [hnil] at hem
+      simp [emit] at hem
     · rcases hbk nt ci q (by rw [e1]; exact hq) with h' | ⟨rest', h'⟩
       · exact Or.inl h'
       · rw [hem] at h'
@@ -93,22 +97,40 @@ theorem rk_step (E : Env S) (hpos : PosW E) (n : Nat) (ihR : RK E n) (ihA : AK E
         (∀ S', S' ≠ nt → ¬ lastGe s S' x → FR E (epilogue s1 nt fr) S') ∧
         (FR E (epilogue s1 nt fr) nt ∧ IdxDone E (epilogue s1 nt fr) nt fr.ci ∧
           ∀ ci', Entered (epilogue s1 nt fr) nt ci' → ci' ≤ fr.ci) ∧
-        (∀ ci q, q ∈ (epilogue s1 nt fr).bankAt nt ci → q ∈ s.bankAt nt ci) := by
+        (∀ ci q, q ∈ (epilogue s1 nt fr).bankAt nt ci → q ∈ s.bankAt nt ci) ∧
+        (((epilogue s1 nt fr).queueOf nt = [] ∧ ((epilogue s1 nt fr).clOf nt).length = fr.ci + 1) ∨
+          (∃ e q, (epilogue s1 nt fr).queueOf nt = e :: q ∧ ((epilogue s1 nt fr).clOf nt)[fr.ci + 1]? = some e.cost)) ∧
+        ((fr.noSucc = false ∨ ∃ e q, s.queueOf nt = e :: q ∧ e.cost = fr.cost) → fr.hasGen = false →
+          (epilogue s1 nt fr).failedByEmpties = true) := by
       intro hne
       obtain ⟨g1, g2, g3, g4, g5, g6, g7, g8⟩ := epilogue_k E s1 nt { fr with pending := [] } x hw1 he4_1 k6 rfl hx hne
-      exact ⟨g1, g2, hkeep1.trans (keep4_of_other x s1 _ nt g3 hnl1),
-        fun S' hS hl => (hFR1 S' hS hl).of_same (g3 S' hS) g6, ⟨g4, g5, g7⟩, fun ci q hq => hbk1 ci q (by rw [← g8]; exact hq)⟩
+      refine ⟨g1, g2, hkeep1.trans (keep4_of_other x s1 _ nt g3 hnl1),
+        fun S' hS hl => (hFR1 S' hS hl).of_same (g3 S' hS) g6, ⟨g4, g5, g7⟩, fun ci q hq => hbk1 ci q (by rw [← g8]; exact hq), ?_, fun hproc hg => ?_⟩
+      · have hlen1 : (s1.clOf nt).length = fr.ci + 1 := k6.fo.1.symm
+        rcases epilogue_append s1 nt fr with ⟨a1, a2⟩ | ⟨e, q, a1, a2⟩
+        · exact Or.inl ⟨a1, by rw [a2]; exact hlen1⟩
+        · refine Or.inr ⟨e, q, a1, ?_⟩
+          rw [a2, List.getElem?_append_right (by omega)]
+          simp [hlen1]
+      · apply epilogue_fbe
+        have hns : fr.noSucc = false := by
+          rcases hproc with h' | ⟨e, q, h1, h2⟩
+          · exact h'
+          · exact absurd h2 (hne e q (by rw [t2 nt]; exact h1))
+        rw [hg, hns]; rfl
     split at h
     · next hq0 =>
       cases h
-      obtain ⟨g1, g2, g3, g4, g5, g6⟩ := hepi (fun e q hq => by rw [hq0] at hq; cases hq)
-      exact ⟨g1, g2, g3, g4, fun _ _ hy => (by cases hy), fun _ => g5, fun ci q hq => Or.inl (g6 ci q hq)⟩
+      obtain ⟨g1, g2, g3, g4, g5, g6, g7, g8⟩ := hepi (fun e q hq => by rw [hq0] at hq; cases hq)
+      exact ⟨g1, g2, g3, g4, fun _ _ hy => (by cases hy), fun _ => g5, fun ci q hq => Or.inl (g6 ci q hq), fun _ => g7,
+        fun hp _ hg => g8 hp hg⟩
     · next e0 q0 hq0 =>
       split at h
       · next hcost =>
         cases h
-        obtain ⟨g1, g2, g3, g4, g5, g6⟩ := hepi (fun e q hq => by rw [hq0] at hq; cases hq; simpa using hcost)
-        exact ⟨g1, g2, g3, g4, fun _ _ hy => (by cases hy), fun _ => g5, fun ci q hq => Or.inl (g6 ci q hq)⟩
+        obtain ⟨g1, g2, g3, g4, g5, g6, g7, g8⟩ := hepi (fun e q hq => by rw [hq0] at hq; cases hq; simpa using hcost)
+        exact ⟨g1, g2, g3, g4, fun _ _ hy => (by cases hy), fun _ => g5, fun ci q hq => Or.inl (g6 ci q hq), fun _ => g7,
+          fun hp _ hg => g8 hp hg⟩
       · next hcost =>
         have hcost' : e0.cost = fr.cost := by
           by_cases hce : e0.cost = fr.cost
@@ -274,12 +296,17 @@ theorem rk_step (E : Env S) (hpos : PosW E) (n : Nat) (ihR : RK E n) (ihA : AK E
                 -- the recursive call
                 have hrec : ∀ (s5 : St S) (fr5 : Frame), WInv E s5 → E4g s5 → (∀ S', S' ≠ nt → Same4 s4 s5 S') →
                     s5.clOf nt = s4.clOf nt → Ext s4 s5 → (∀ ci, s5.bankAt nt ci = s4.bankAt nt ci) → FrK E s5 nt fr5 → fr5.cost = fr.cost → fr5.ci = fr.ci →
+                    fr5.noSucc = false → fr5.hasGen = fr.hasGen →
                     resume E n s5 nt fr5 = some r →
                     WInv E r.1 ∧ E4g r.1 ∧ Keep4 x s r.1 ∧ (∀ S', S' ≠ nt → ¬ lastGe s S' x → FR E r.1 S') ∧
-                    (∀ p fr', r.2 = .yield p fr' → FrK E r.1 nt fr') ∧
+                    (∀ p fr', r.2 = .yield p fr' → FrK E r.1 nt fr' ∧ fr'.noSucc = false) ∧
                     (r.2 = .ret → FR E r.1 nt ∧ IdxDone E r.1 nt fr.ci ∧ ∀ ci', Entered r.1 nt ci' → ci' ≤ fr.ci) ∧
-                    (∀ ci q, q ∈ r.1.bankAt nt ci → q ∈ s.bankAt nt ci ∨ ∃ fr', r.2 = .yield q fr') := by
-                  intro s5 fr5 hw5 he5 hsame45 hcl5 hx45 hba45 hk5 hcost5 hci5 hres
+                    (∀ ci q, q ∈ r.1.bankAt nt ci → q ∈ s.bankAt nt ci ∨ ∃ fr', r.2 = .yield q fr') ∧
+                    (r.2 = .ret → (r.1.queueOf nt = [] ∧ (r.1.clOf nt).length = fr.ci + 1) ∨
+                      (∃ e q, r.1.queueOf nt = e :: q ∧ (r.1.clOf nt)[fr.ci + 1]? = some e.cost)) ∧
+                    ((fr.noSucc = false ∨ ∃ e q, s.queueOf nt = e :: q ∧ e.cost = fr.cost) → r.2 = .ret → fr.hasGen = false →
+                      r.1.failedByEmpties = true) := by
+                  intro s5 fr5 hw5 he5 hsame45 hcl5 hx45 hba45 hk5 hcost5 hci5 hns5 hhg5 hres
                   have hnl4 : ¬ lastGe s4 nt x := by
                     intro ⟨c0, a1, a2⟩
                     rw [hclnt4, hlast1] at a1; cases a1
@@ -288,10 +315,11 @@ theorem rk_step (E : Env S) (hpos : PosW E) (n : Nat) (ihR : RK E n) (ihA : AK E
                   have hFR5 : ∀ S', S' ≠ nt → ¬ lastGe s S' x → FR E s5 S' := fun S' hS hl =>
                     (hFR4 S' hS hl).of_same (hsame45 S' hS) hx45
                   have hfo5 : FRo E x s5 nt := frp_now E x (· ≠ nt) s s5 hFR5 hkeep5
-                  obtain ⟨q1, q2, q3, q4, q5, q6, q7⟩ := ihR _ _ _ _ x hw5 he5 hfo5 hk5 (by rw [hcost5]; exact hx) hres
+                  obtain ⟨q1, q2, q3, q4, q5, q6, q7, q8, q9⟩ := ihR _ _ _ _ x hw5 he5 hfo5 hk5 (by rw [hcost5]; exact hx) hres
                   obtain ⟨_, ext5r, _⟩ := (cost_all E n).2.2.2.1 _ _ _ _ hw5.c hk5.fc hres
                   refine ⟨q1, q2, hkeep5.trans q3, frp_trans E x (· ≠ nt) s s5 r.1 hFR5 q4 q3 ext5r, q5,
-                    fun hr => (by rw [← hci5]; exact q6 hr), fun ci q hq => ?_⟩
+                    fun hr => (by rw [← hci5]; exact q6 hr), fun ci q hq => ?_, fun hr => (by rw [← hci5]; exact q8 hr),
+                    fun _ hr hg => q9 (Or.inl hns5) hr (by rw [hhg5]; exact hg)⟩
                   rcases q7 ci q hq with h' | h'
                   · left; apply hbk1; rw [← hba4, ← hba45]; exact h'
                   · exact Or.inr h'
@@ -301,7 +329,7 @@ theorem rk_step (E : Env S) (hpos : PosW E) (n : Nat) (ihR : RK E n) (ihA : AK E
                 split at h
                 · next hae =>
                   -- an argument is allowed to be empty: no program of this combination
-                  refine hrec s4 { fr with noSucc := fr.noSucc && (af && !ae), pending := [] } hw4 he4_4 (fun S' _ => Same4.refl s4 S') rfl (Ext.refl _) (fun _ => rfl) ?_ rfl rfl h
+                  refine hrec s4 { fr with noSucc := fr.noSucc && (af && !ae), pending := [] } hw4 he4_4 (fun S' _ => Same4.refl s4 S') rfl (Ext.refl _) (fun _ => rfl) ?_ rfl rfl (by simp [hfailed]) rfl h
                   refine ⟨hfo4 _ rfl rfl, ⟨hx14.get _ _ _ hfc1.1, fun a ha => (by cases ha)⟩, k6.fin,
                     fun hh => (by rw [hba4]; exact k6.hg hh), fun hh => (by rw [hba4]; exact k6.hg2 hh),
                     fun _ => (by simp [hfailed]), (by rw [hemp4]; exact k6.ne),
@@ -330,11 +358,15 @@ theorem rk_step (E : Env S) (hpos : PosW E) (n : Nat) (ihR : RK E n) (ihA : AK E
                       s5.queueOf nt = s4.queueOf nt →
                       resume E n s5 nt { fr with noSucc := fr.noSucc && (af && !ae), P := el.P, isFun := !(rl0.1.map ntOf).isEmpty, pending := product poss } = some r →
                       WInv E r.1 ∧ E4g r.1 ∧ Keep4 x s r.1 ∧ (∀ S', S' ≠ nt → ¬ lastGe s S' x → FR E r.1 S') ∧
-                      (∀ p fr', r.2 = .yield p fr' → FrK E r.1 nt fr') ∧
+                      (∀ p fr', r.2 = .yield p fr' → FrK E r.1 nt fr' ∧ fr'.noSucc = false) ∧
                     (r.2 = .ret → FR E r.1 nt ∧ IdxDone E r.1 nt fr.ci ∧ ∀ ci', Entered r.1 nt ci' → ci' ≤ fr.ci) ∧
-                    (∀ ci q, q ∈ r.1.bankAt nt ci → q ∈ s.bankAt nt ci ∨ ∃ fr', r.2 = .yield q fr') := by
+                    (∀ ci q, q ∈ r.1.bankAt nt ci → q ∈ s.bankAt nt ci ∨ ∃ fr', r.2 = .yield q fr') ∧
+                    (r.2 = .ret → (r.1.queueOf nt = [] ∧ (r.1.clOf nt).length = fr.ci + 1) ∨
+                      (∃ e q, r.1.queueOf nt = e :: q ∧ (r.1.clOf nt)[fr.ci + 1]? = some e.cost)) ∧
+                    ((fr.noSucc = false ∨ ∃ e q, s.queueOf nt = e :: q ∧ e.cost = fr.cost) → r.2 = .ret → fr.hasGen = false →
+                      r.1.failedByEmpties = true) := by
                     intro s5 hw5 he5 hsame45 hcl5 hx45 hba5 hemp5 hsome5 hlk5 hq5 hres
-                    refine hrec s5 { fr with noSucc := fr.noSucc && (af && !ae), P := el.P, isFun := !(rl0.1.map ntOf).isEmpty, pending := product poss } hw5 he5 hsame45 hcl5 hx45 hba5 ?_ rfl rfl hres
+                    refine hrec s5 { fr with noSucc := fr.noSucc && (af && !ae), P := el.P, isFun := !(rl0.1.map ntOf).isEmpty, pending := product poss } hw5 he5 hsame45 hcl5 hx45 hba5 ?_ rfl rfl (by simp [hfailed]) rfl hres
                     refine ⟨⟨by rw [hcl5, hclnt4]; exact hfo1.1, by rw [hcl5, hclnt4]; exact hfo1.2⟩, ⟨(hx14.trans hx45).get _ _ _ hfc1.1, fun a ha => ?_⟩,
                       k6.fin, fun hh => (by rw [hba5, hba4]; exact k6.hg hh), fun hh => (by rw [hba5, hba4]; exact k6.hg2 hh),
                       fun _ => (by simp [hfailed]), (by rw [hemp5, hemp4]; exact k6.ne),
